@@ -2,6 +2,7 @@
 from bsv.cfg import CFG
 from bsv.dtab import TOP, AnalysisBroken, Pos, Sym
 from bsv.facts import child, strip, strip_targs
+from bsv.expr import named_inits
 from bsv.interval import Iv
 from bsv.linear import Lin
 from rules import utf_tables as U
@@ -22,9 +23,6 @@ NS = 'BitSerializer::Csv::Detail::'
 DOCUMENTED_SEPARATORS = {',', ';', '\t', ' ', '|'}
 
 
-_INITS = {}
-
-
 def lin_of(f, e):
     """symbolic linear value of a pointer/size expression: X.data() -> D, meta.Offset -> Offset, meta.Size -> Size"""
     e = strip(e)
@@ -42,22 +40,7 @@ def lin_of(f, e):
         return None
     if k == 'DeclRefExpr' and e.get('dk') in ('Var', None) and not e.get('g'):
         # a named temporary: a local with one initialiser that is never assigned again stands for its initialiser
-        inits = _INITS.get(f.id)
-        if inits is None:
-            inits, written = {}, set()
-            for x in f.walk():
-                if x['k'] == 'DeclStmt' and len(x.get('decls') or []) == 1 and x.get('c'):
-                    inits[x['decls'][0]['d']] = x['c'][0]
-                if x['k'] in ('BinaryOperator', 'CompoundAssignOperator') and x.get('op', '').endswith('=') and x.get('op') not in ('==', '!=', '<=', '>='):
-                    t = strip(x['c'][0])
-                    if t is not None and t['k'] == 'DeclRefExpr':
-                        written.add(t.get('d'))
-                if x['k'] == 'UnaryOperator' and x.get('op') in ('++', '--'):
-                    t = strip(x['c'][0])
-                    if t is not None and t['k'] == 'DeclRefExpr':
-                        written.add(t.get('d'))
-            inits = {d: v for d, v in inits.items() if d not in written}
-            _INITS[f.id] = inits
+        inits = named_inits(f)
         if e.get('d') in inits:
             return lin_of(f, inits[e['d']])
         return None
@@ -145,31 +128,10 @@ def run(prog, rep):
     check_lookahead_fresh(prog, rep)
 
     # ---------------------------------------------------------------- R9.3
-    for cls, meth, operands in (('CCsvStringReader', 'ParseNextRow', ({'mHeaders', 'mRowValuesMeta'}, {'mPrevValuesCount', 'mRowValuesMeta'})),
-                                ('CCsvStreamReader', 'ParseNextRow', ({'mHeaders', 'mRowValuesMeta'}, {'mPrevValuesCount', 'mRowValuesMeta'})),
-                                ('CCsvStringWriter', 'NextLine', ({'mValueIndex', 'mPrevValuesCount'},)),
-                                ('CCsvStreamWriter', 'NextLine', ({'mValueIndex', 'mPrevValuesCount'},))):
-        fs = [g for g in prog.funcs.values() if g.q == NS + cls + '::' + meth]
-        if len(fs) != 1:
-            raise AnalysisBroken('anchor vanished: %s::%s' % (cls, meth))
-        g = fs[0]
-        rep.touch(g)
-        found = []
-        for n in g.walk():
-            if n['k'] == 'IfStmt':
-                c = child(n, 'cond')
-                names = set(x.get('m') for x in g.walk(c) if x['k'] == 'MemberExpr')
-                has_ne = any(x['k'] in ('BinaryOperator', 'CXXOperatorCallExpr') and x.get('op') == '!=' for x in g.walk(c))
-                throws = any(x['k'] == 'CXXThrowExpr' for x in g.walk(child(n, 'then')))
-                for ops in operands:
-                    if ops <= names and has_ne and throws:
-                        found.append(tuple(sorted(ops)))
-        site = '%s::%s' % (cls, meth)
-        if len(set(found)) == len(operands):
-            rep.ok('R9.3', site, sample={'method': site, 'width_checks': sorted(set(found))})
-        else:
-            rep.finding('R9.3', site, g.loc(), '%s no longer compares the row width (%s) and throws on mismatch on every row kind'
-                        % (site, ' / '.join(' vs '.join(sorted(o)) for o in operands)), func=g.id)
+    for cls in ('CCsvStringReader', 'CCsvStreamReader'):
+        check_reader_width(prog, rep, cls)
+    for cls in ('CCsvStringWriter', 'CCsvStreamWriter'):
+        check_writer_width(prog, rep, cls)
 
     # ---------------------------------------------------------------- R9.4
     ctors = [g for g in prog.funcs.values() if g.sym['kind'] == 'ctor' and g.cls in (NS + 'CsvWriteRootScope', NS + 'CsvReadRootScope')]
@@ -558,3 +520,325 @@ def check_lookahead_fresh(prog, rep, rule='R9.6'):
                     func=f.id)
     if not n_ret:
         raise AnalysisBroken(rule + ': no return statement reached in ParseNextLine')
+
+
+# ---------------------------------------------------------------------------------------------------------------- R9.3 row width
+INTEGRAL = ('unsigned long', 'unsigned int', 'unsigned long long', 'int', 'long', 'size_t', 'std::size_t')
+
+
+def _fields(prog, cls):
+    r = prog.records.get(NS + cls)
+    if r is None:
+        raise AnalysisBroken('anchor vanished: class %s' % cls)
+    tu = r['_tu']
+    return [(fl['n'], tu['types'][fl['t']]) for fl in r['fields']]
+
+
+def _method(prog, cls, name, many=False):
+    fs = [g for g in prog.funcs.values() if g.q == NS + cls + '::' + name]
+    if many:
+        return fs
+    if len(fs) != 1:
+        raise AnalysisBroken('anchor vanished: %s::%s' % (cls, name))
+    return fs[0]
+
+
+def _this_field(g, e):
+    e = strip(e)
+    if e is not None and e['k'] == 'MemberExpr' and e.get('dk') == 'Field' and e.get('c') and strip(e['c'][0])['k'] == 'CXXThisExpr':
+        return e['m']
+    return None
+
+
+def _incremented(g):
+    out = set()
+    for x in g.walk():
+        if x['k'] == 'UnaryOperator' and x.get('op') in ('++',):
+            m = _this_field(g, x['c'][0])
+            if m:
+                out.add(m)
+        if x['k'] == 'CompoundAssignOperator' and x.get('op') == '+=':
+            m = _this_field(g, x['c'][0])
+            if m:
+                out.add(m)
+    return out
+
+
+def _assigned(g):
+    """{field: [rhs, ...]} for plain assignments to members of this"""
+    out = {}
+    for x in g.walk():
+        if x['k'] == 'BinaryOperator' and x.get('op') == '=':
+            m = _this_field(g, x['c'][0])
+            if m:
+                out.setdefault(m, []).append(x['c'][1])
+    return out
+
+
+class RowModel(Model):
+    def __init__(self, cls, store, sizes, parser=None, parsed=None, record=False):
+        self.record = record
+        self.cls = cls
+        self.init = store
+        self.sizes = sizes
+        self.parser = parser
+        self.parsed = parsed
+
+    def initial_store(self, it, key):
+        if isinstance(key, str) and key.startswith('this.') and key[5:] in self.init:
+            return self.init[key[5:]]
+        return TOP
+
+    def compare(self, it, fr, n, op, a, b):
+        for v in (a, b):
+            if isinstance(v, Sym) and v.tag == 'IO_OK':
+                return 1 if op == '==' else 0
+        return Sym(('GUARD', 'CMP@%s' % fr.f.loc(n)))
+
+    def construct(self, it, fr, n, depth):
+        for a in n.get('c', ()):
+            it.ev(fr, a, depth)
+        return TOP
+
+    def primitive(self, it, fr, n, callee, depth):
+        obj, args = it.call_args(fr, n)
+        name = callee['n']
+        recv = _this_field(fr.f, obj) if obj is not None else None
+        if name in ('size', 'length') and recv in self.sizes:
+            return self.sizes[recv]
+        if name == 'empty' and recv in self.sizes:
+            return 1 if self.sizes[recv] == 0 else 0
+        if self.parser is not None and callee.get('id') == self.parser:
+            return self.parsed
+        q = strip_targs(callee['q'])
+        if callee.get('repo') and (callee.get('cls') in (None, NS + self.cls)) and not q.startswith('BitSerializer::Convert'):
+            g = it.prog.funcs.get(callee['id'])
+            loops = g is not None and any(x['k'] in ('ForStmt', 'WhileStmt', 'DoStmt', 'CXXForRangeStmt') for x in g.walk())
+            if not (self.record and loops):
+                return NotImplemented       # helpers of the class / of the unit are inlined
+        for a in args:
+            it.ev(fr, a, depth)
+        if self.record and (callee.get('repo') or name in ('push_back', 'append', 'Write', 'write', 'put', 'clear')):
+            it.act('CALLS', name)
+        if callee.get('repo') and name == 'Write':
+            return Sym('IO_OK')
+        return TOP
+
+
+def reader_roles(prog, cls):
+    g = _method(prog, cls, 'ParseNextRow')
+    fields = _fields(prog, cls)
+    # roles: the line parser is the member call in ParseNextRow that receives a member by reference; that member is the row
+    parser = row = None
+    for x in g.walk():
+        if x['k'] == 'CXXMemberCallExpr':
+            c = g.callee(x) or {}
+            if c.get('cls') == NS + cls and len(x['c']) > 1 and _this_field(g, x['c'][1]):
+                parser, row = c, _this_field(g, x['c'][1])
+                break
+    if parser is None or parser['id'] not in prog.funcs:
+        raise AnalysisBroken('R9.3: %s::ParseNextRow does not call a line parser of the class with the row buffer' % cls)
+    pf = prog.funcs[parser['id']]
+    read_here = set(_this_field(g, x) for x in g.walk() if x['k'] == 'MemberExpr')
+    line = [m for m in sorted(_incremented(pf)) if dict(fields).get(m, '').replace('const ', '') in INTEGRAL and m in read_here]
+
+    def size_of_param(r):
+        r = strip(r)
+        if r is None or r['k'] != 'CXXMemberCallExpr' or (pf.callee(r) or {}).get('n') != 'size':
+            return False
+        me = strip(r['c'][0], casts=False)
+        o = strip(me['c'][0]) if me.get('c') else None
+        return o is not None and o['k'] == 'DeclRefExpr' and o.get('d') in [p_['d'] for p_ in pf.params]
+    prevs = [m for m, rhs in sorted(_assigned(pf).items()) if any(size_of_param(r) for r in rhs)]
+    hdrs = [n_ for n_, t in fields if t.startswith('std::vector<std::basic_string<')]
+    wh = [n_ for n_, t in fields if t in ('const bool', 'bool')]
+    if len(line) != 1 or len(prevs) != 1 or len(hdrs) != 1 or len(wh) != 1:
+        raise AnalysisBroken('R9.3: roles of %s not recognised (line counter %s, previous width %s, headers %s, header flag %s)' % (cls, line, prevs, hdrs, wh))
+    others = [n_ for n_, t in fields if t in INTEGRAL and n_ not in (line[0], prevs[0])]
+    return {'g': g, 'pf': pf, 'parser': parser, 'row': row, 'line': line[0], 'prev': prevs[0], 'hdr': hdrs[0], 'wh': wh[0], 'others': others}
+
+
+def reader_cells():
+    for parsed in (0, 1):
+        for withhdr in (0, 1):
+            for ln in (1, 2, 3):
+                for h in (2, 3):
+                    for r in (2, 3):
+                        for p in ((0,) if ln == 1 else (2, 3)):
+                            if withhdr and ln == 1:
+                                continue
+                            if not parsed and (h, r, p) != (2, 2, 2 if ln > 1 else 0):
+                                continue
+                            yield parsed, withhdr, ln, h, r, p
+
+
+def effects_of(pth, init, names):
+    """what a path did to the integral members: {role or 'other#k': '+1' | '=v'} (name independent for the members without a role)"""
+    out = []
+    k = 0
+    for m, v0 in sorted(init.items()):
+        v1 = pth.store.get('this.' + m, v0)
+        role = names.get(m)
+        if role is None:
+            role = 'other'
+        if v1 == v0:
+            continue
+        if isinstance(v1, int) and isinstance(v0, int) and v1 == v0 + 1:
+            out.append((role, '+1'))
+        else:
+            out.append((role, '=%s' % (v1 if isinstance(v1, int) else '?')))
+    return tuple(sorted(out))
+
+
+def reader_row_effects(prog, cls):
+    """ParseNextRow over the cells of R9.3 with visible effects: {cell: set of (outcome, calls, effects)} - used by the twin rule R10.3"""
+    ro = reader_roles(prog, cls)
+    res = {}
+    for cell in reader_cells():
+        parsed, withhdr, ln, h, r, p = cell
+        init = {ro['line']: ln, ro['prev']: p, ro['wh']: withhdr}
+        for i, m in enumerate(ro['others']):
+            init[m] = 40 + 10 * i
+        names = {ro['line']: 'line', ro['prev']: 'prev', ro['wh']: 'flag'}
+        model = RowModel(cls, init, {ro['hdr']: h, ro['row']: r}, ro['parser']['id'], parsed, record=True)
+        it = Interp(prog, model, max_depth=3, max_paths=60)
+        sigs = set()
+        for pth in it.run(ro['g'], lambda it_, fr: None):
+            o = 'throw' if pth.outcome[0] == 'THROW' else 'return %s' % (int(pth.outcome[1]) if isinstance(pth.outcome[1], (int, bool)) else '?')
+            calls = tuple(a[1] for a in pth.actions if a[0] == 'CALLS')
+            sigs.add((o, calls, effects_of(pth, init, names)))
+        res[cell] = sigs
+    return res
+
+
+def writer_roles(prog, cls):
+    g = _method(prog, cls, 'NextLine')
+    fields = dict(_fields(prog, cls))
+    integral = set(n_ for n_, t in fields.items() if t in INTEGRAL)
+    vals = set()
+    for w in _method(prog, cls, 'WriteValue', many=True):
+        vals |= _incremented(w) & integral
+    rows = (_incremented(g) & integral) - vals
+    if len(vals) != 1 or len(rows) != 1:
+        raise AnalysisBroken('R9.3: roles of %s not recognised (value counter %s, row counter %s)' % (cls, sorted(vals), sorted(rows)))
+    val, rowi = list(vals)[0], list(rows)[0]
+    return {'g': g, 'val': val, 'row': rowi, 'prevs': integral - {val, rowi}, 'wh': [n_ for n_, t in fields.items() if t in ('const bool', 'bool')]}
+
+
+def writer_value_effects(prog, cls):
+    """WriteValue over (row index, values written so far, header flag): {cell: set of (outcome, calls, effects)} - used by R10.3"""
+    ro = writer_roles(prog, cls)
+    fs = _method(prog, cls, 'WriteValue', many=True)
+    if len(fs) != 1:
+        raise AnalysisBroken('R10.3: expected one %s::WriteValue, found %d' % (cls, len(fs)))
+    res = {}
+    for ri in (0, 1):
+        for v in (0, 2):
+            for withhdr in (0, 1):
+                init = {ro['val']: v, ro['row']: ri}
+                for m in ro['wh']:
+                    init[m] = withhdr
+                for i, m in enumerate(sorted(ro['prevs'])):
+                    init[m] = 40 + 10 * i
+                names = {ro['val']: 'values', ro['row']: 'row'}
+                for m in ro['wh']:
+                    names[m] = 'flag'
+                model = RowModel(cls, init, {}, record=True)
+                it = Interp(prog, model, max_depth=3, max_paths=60)
+                sigs = set()
+                for pth in it.run(fs[0], lambda it_, fr: None):
+                    o = 'throw' if pth.outcome[0] == 'THROW' else 'return'
+                    calls = tuple(a[1] for a in pth.actions if a[0] == 'CALLS')
+                    sigs.add((o, calls, effects_of(pth, init, names)))
+                res[(ri, v, withhdr)] = sigs
+    return res
+
+
+def check_reader_width(prog, rep, cls):
+    ro = reader_roles(prog, cls)
+    g, pf, parser, row, line, prev, hdr, wh = ro['g'], ro['pf'], ro['parser'], ro['row'], ro['line'], ro['prev'], ro['hdr'], ro['wh']
+    rep.touch(g)
+    rep.touch(pf)
+    cells = 0
+    bad = None
+    for parsed in (0, 1):
+        for withhdr in (0, 1):
+            for ln in (1, 2, 3):
+                for h in (2, 3):
+                    for r in (2, 3):
+                        for p in ((0,) if ln == 1 else (2, 3)):
+                            if withhdr and ln == 1:
+                                continue
+                            if not parsed and (h, r, p) != (2, 2, 2 if ln > 1 else 0):
+                                continue
+                            model = RowModel(cls, {line: ln, prev: p, wh: withhdr}, {hdr: h, row: r}, parser['id'], parsed)
+                            it = Interp(prog, model, max_depth=3, max_paths=60)
+                            cells += 1
+                            want = bool(parsed) and ((withhdr and h != r) or (not withhdr and ln >= 2 and p != r))
+                            for pth in it.run(g, lambda it_, fr: None):
+                                threw = pth.outcome[0] == 'THROW'
+                                if threw != want and bad is None:
+                                    bad = 'line %d, %s, row of %d values, %s: %s, expected %s' % (
+                                        ln, 'header of %d names' % h if withhdr else 'no header', r, 'previous row of %d' % p if not withhdr else 'any previous row',
+                                        'throws' if threw else 'accepts the row', 'a throw' if want else 'no throw')
+                                if not threw and not bad:
+                                    v = pth.outcome[1]
+                                    if isinstance(v, (int, bool)) and bool(v) != bool(parsed):
+                                        bad = 'returns %s although the line parser returned %s' % (bool(v), bool(parsed))
+    site = '%s::ParseNextRow' % cls
+    if bad is None:
+        rep.ok('R9.3', site, sample={'method': site, 'cells': cells, 'roles': {'row': row, 'headers': hdr, 'previous_width': prev, 'line': line, 'header_flag': wh}})
+    else:
+        rep.finding('R9.3', site, g.loc(), '%s no longer compares the row width with the header / the previous row and throws on a mismatch on every row kind: %s'
+                    % (site, bad), func=g.id)
+
+
+def check_writer_width(prog, rep, cls):
+    g = _method(prog, cls, 'NextLine')
+    rep.touch(g)
+    fields = dict(_fields(prog, cls))
+    integral = set(n_ for n_, t in fields.items() if t in INTEGRAL)
+    vals = set()
+    for w in _method(prog, cls, 'WriteValue', many=True):
+        vals |= _incremented(w) & integral
+    rows = (_incremented(g) & integral) - vals
+    if len(vals) != 1 or len(rows) != 1:
+        raise AnalysisBroken('R9.3: roles of %s not recognised (value counter %s, row counter %s)' % (cls, sorted(vals), sorted(rows)))
+    val, rowi = list(vals)[0], list(rows)[0]
+    prevs = integral - {val, rowi}
+    wh = [n_ for n_, t in fields.items() if t in ('const bool', 'bool')]
+    cells = 0
+    bad = None
+    for ri in (0, 1, 2):
+        for v in (2, 3):
+            for withhdr in (0, 1):
+                for est in (0, 7):
+                    # every other integral member is given the previous width in turn: the one that the code compares decides
+                    for p in (2, 3):
+                        init = {val: v, rowi: ri}
+                        for m in prevs:
+                            init[m] = p
+                        for m in wh:
+                            init[m] = withhdr
+                        for m in prevs:
+                            if 'stimat' in m:
+                                init[m] = est
+                        model = RowModel(cls, init, {})
+                        it = Interp(prog, model, max_depth=3, max_paths=60)
+                        cells += 1
+                        want = ri > 0 and v != p
+                        for pth in it.run(g, lambda it_, fr: None):
+                            threw = pth.outcome[0] == 'THROW'
+                            if threw != want and bad is None:
+                                bad = 'row %d with %d values after rows of %d values: %s, expected %s' % (
+                                    ri, v, p, 'throws' if threw else 'writes the row', 'a throw' if want else 'no throw')
+                            if not threw and ri == 0 and bad is None:
+                                rec = [m for m in prevs if pth.store.get('this.' + m) == v]
+                                if v != p and not rec:
+                                    bad = 'the first row (%d values) does not record its width for the comparison on the next rows' % v
+    site = '%s::NextLine' % cls
+    if bad is None:
+        rep.ok('R9.3', site, sample={'method': site, 'cells': cells, 'roles': {'values_in_row': val, 'row': rowi, 'candidates_previous_width': sorted(prevs)}})
+    else:
+        rep.finding('R9.3', site, g.loc(), '%s no longer compares the row width with the previous row and throws on a mismatch on every row: %s'
+                    % (site, bad), func=g.id)
